@@ -152,8 +152,6 @@ Section ParseEff.
   Variable consts : pydict string.
   Variable preds : pydict signature.
   Variable funcs : pydict signature.
-  Variable sfuncs : list (string * typed).
-  Hypothesis Hfuncs : forall f sg, dget funcs f = Some sg -> lookup f sfuncs = Some sg.
   Hypothesis Hfkey : forall f sg, dget funcs f = Some sg -> str_in f keywords = false.
   Hypothesis Hpkey : forall p, dmem preds p = true -> str_in p keywords = false.
 
@@ -198,7 +196,7 @@ Section ParseEff.
     construct num funcs (tree_fuel (SList (Atom h :: args))) (SList (Atom h :: args)) = Ok t ->
     str_in h assignment_ops = true ->
     read_prim num (SList (Atom h :: args)) = Some p ->
-    prim_ok sfuncs p = true ->
+    prim_ok p = true ->
     denote_numeff t = Some p.
   Proof.
     intros Hc Ha Hr Hok. destruct (assignment_ops_read h Ha) as [k Hk].
@@ -207,8 +205,7 @@ Section ParseEff.
     destruct args as [|[a|[|[f|sf] fargs]] [|rhs [|z zs]]]; try discriminate Hr.
     destruct (atom_names fargs) as [names|] eqn:En; [|discriminate].
     destruct (read_nexp num rhs) as [r|] eqn:Er; [|discriminate]. injection Hr as <-.
-    simpl in Hok. apply andb_true_iff in Hok as [Hok Hor]. apply andb_true_iff in Hok as [Hfk Hof].
-    apply negb_true_iff in Hfk.
+    simpl in Hok. apply negb_true_iff in Hok. rename Hok into Hfk.
     unfold tree_fuel in Hc. remember (size (SList [Atom h; SList (Atom f :: fargs); rhs])) as fu0 eqn:Efu. clear Efu.
     cbn [construct] in Hc. cbn [all_atoms forallb andb] in Hc.
     destruct (construct num funcs fu0 (SList (Atom f :: fargs))) as [ta|] eqn:Eta; cbn [bind] in Hc; [|discriminate].
@@ -217,15 +214,15 @@ Section ParseEff.
     destruct (not_keyword_heads f Hfk) as (_ & _ & _ & _ & _ & _ & _ & Hfb & _).
     assert (Hrf : read_nexp num (SList (Atom f :: fargs)) = Some (NFl f names)).
     { rewrite read_nexp_app by assumption. rewrite En. reflexivity. }
-    pose proof (construct_faithful num funcs sfuncs Hfuncs Hfkey _ _ _ _ Eta Hrf Hof) as Hta.
+    pose proof (construct_faithful num funcs Hfkey _ _ _ _ Eta Hrf) as Hta.
     apply denote_tree_fn in Hta. subst ta.
     simpl. rewrite assignop_of_read, Hk.
-    rewrite (construct_faithful num funcs sfuncs Hfuncs Hfkey _ _ _ _ Etb Er Hor). reflexivity.
+    rewrite (construct_faithful num funcs Hfkey _ _ _ _ Etb Er). reflexivity.
   Qed.
 
   Lemma parse_result_faithful sg e r p :
     parse_result num consts funcs sg e = Ok r ->
-    read_prim num e = Some p -> prim_ok sfuncs p = true ->
+    read_prim num e = Some p -> prim_ok p = true ->
     denote_result r = Some p.
   Proof.
     intros Hp Hr Hok. unfold parse_result in Hp.
@@ -259,7 +256,7 @@ Section ParseEff.
   Lemma mapM_parse_result sg : forall l rs ps,
     mapM (parse_result num consts funcs sg) l = Ok rs ->
     all_some (map (read_prim num) l) = Some ps ->
-    forallb (prim_ok sfuncs) ps = true ->
+    forallb (prim_ok) ps = true ->
     Forall2 (fun r p => denote_result r = Some p) rs ps.
   Proof.
     induction l as [|e rest IH]; intros rs ps Hm Hr Hok.
@@ -298,7 +295,7 @@ Section ParseEff.
 
   Lemma parse_results_faithful sg res rs ps :
     parse_results sg res = Ok rs ->
-    read_prims num res = Some ps -> forallb (prim_ok sfuncs) ps = true ->
+    read_prims num res = Some ps -> forallb (prim_ok) ps = true ->
     Forall2 (fun r p => denote_result r = Some p) rs ps.
   Proof.
     unfold parse_results. intros Hp Hr Hok.
@@ -347,7 +344,7 @@ Section ParseEff.
   Lemma parse_conditional_effect_faithful sg cond res ce c ps :
     parse_conditional_effect num tt consts preds funcs sg (SList [Atom "when"; cond; res]) = Ok ce ->
     read_form num cond = Some c -> read_prims num res = Some ps ->
-    form_ok sfuncs c = true -> forallb (prim_ok sfuncs) ps = true ->
+    form_ok c = true -> forallb (prim_ok) ps = true ->
     exists c' ps', denote_condeff ce = Some (c', ps') /\ form_equiv c' c /\ Permutation ps' ps.
   Proof.
     intros Hp Hc Hr Hokc Hokp. rewrite parse_conditional_effect_unfold in Hp.
@@ -363,9 +360,9 @@ Section ParseEff.
       cbn [head_of] in Ech. injection Ech as <-.
       destruct (String.eqb h "and") eqn:Eand.
       - apply String.eqb_eq in Eand. subst h.
-        exact (nested_faithful num tt consts preds funcs sfuncs _ sg "and" subs ante c
-                 (parse_pre_faithful num tt consts preds funcs sfuncs Hfuncs Hfkey Hpkey _) eq_refl Eante Hc Hokc).
-      - destruct (parse_pre_faithful num tt consts preds funcs sfuncs Hfuncs Hfkey Hpkey _ sg (MPre "and" [] [] [])
+        exact (nested_faithful num tt consts preds funcs _ sg "and" subs ante c
+                 (parse_pre_faithful num tt consts preds funcs Hfkey Hpkey _) eq_refl Eante Hc Hokc).
+      - destruct (parse_pre_faithful num tt consts preds funcs Hfkey Hpkey _ sg (MPre "and" [] [] [])
                     [SList (Atom h :: subs)] ante [c] [] Eante)
           as (fr' & Hd' & Hop' & fs' & Hperm' & Hf2').
         + cbn [map]. rewrite all_some_cons, Hc. reflexivity.
@@ -383,7 +380,7 @@ Section ParseEff.
   Lemma parse_universal_effect_faithful sg args u e0 :
     parse_universal_effect num tt consts preds funcs sg (SList (Atom "forall" :: args)) = Ok u ->
     read_eff_item num (SList (Atom "forall" :: args)) = Some (inr e0) ->
-    eff_ok sfuncs e0 = true ->
+    eff_ok e0 = true ->
     exists e', denote_univeff u = Some e' /\ eff_rel e' e0.
   Proof.
     intros Hp Hr Hok. rewrite read_eff_item_eq in Hr. unfold read_eff_item' in Hr.
@@ -408,7 +405,7 @@ Section ParseEff.
   Definition when_of (cp : form * list prim) : eff := EWhen (fst cp) (snd cp).
   Definition item_prims (i : prim + eff) : list prim := match i with inl p => [p] | inr _ => [] end.
   Definition item_others (i : prim + eff) : list eff := match i with inl _ => [] | inr x => [x] end.
-  Definition item_ok (i : prim + eff) : bool := match i with inl p => prim_ok sfuncs p | inr e => eff_ok sfuncs e end.
+  Definition item_ok (i : prim + eff) : bool := match i with inl p => prim_ok p | inr e => eff_ok e end.
 
   Definition acc_rel (acc : effacc) (prims : list prim) (others : list eff) : Prop :=
     exists ns cs us,
@@ -548,8 +545,8 @@ Section ParseEff.
   Qed.
 
   Lemma items_ok_of_effs items :
-    forallb (prim_ok sfuncs) (flat_map item_prims items) = true ->
-    forallb (eff_ok sfuncs) (flat_map item_others items) = true ->
+    forallb (prim_ok) (flat_map item_prims items) = true ->
+    forallb (eff_ok) (flat_map item_others items) = true ->
     forallb item_ok items = true.
   Proof.
     induction items as [|[p|e] r IH]; simpl; intros Hp He; [reflexivity| |].
@@ -561,7 +558,7 @@ Section ParseEff.
   Theorem parse_effects_faithful sg e ef es :
     parse_effects num tt consts preds funcs sg e = Ok ef ->
     read_effects num e = Some es ->
-    forallb (eff_ok sfuncs) es = true ->
+    forallb (eff_ok) es = true ->
     exists es', denote_eff_parts (ea_disc ef) (ea_num ef) (ea_cond ef) (ea_univ ef) = Some es' /\ effs_rel es' es.
   Proof.
     intros Hp Hr Hok. unfold parse_effects in Hp.
